@@ -21,4 +21,34 @@ def eval (r : (Bool × Bool × Bool × Bool × Bool × Bool × Bool)) : String :
 
 theorem skip_table_agrees : ∀ r ∈ skipTable, eval r.1 = r.2 := by decide +kernel
 
+/-! Second table: the REAL `RunContext.handle_exception(excp, suite)` executed on an instance of every class user
+    code can raise (plain exception, `AbortTest` / `AbortSuite` / `AbortAllTests`, a project-defined SUBCLASS of
+    each), with and without the `suite` argument; read back through `is_task_to_be_skipped` (a test of the suite,
+    a test of a sub-suite, a test of another suite) and the number of error logs.  The model side runs
+    `Run.handleException` on the class's `ExcClass.kind` (isinstance classification) in a task working at test
+    `s.t` and asks `skipReason` the same three questions. -/
+
+open LccModel.Report LccModel.Run LccModel.Session in
+def evalHandle (r : String × Bool × Bool) : String :=
+  let (name, sub, withSuite) := r
+  match ExcClass.ofName name sub with
+  | none => "unknown class"
+  | some c =>
+    let prog : Run.M Unit := do
+      Run.sop 0 (.startTest ["s", "t"] (Run.mdOf "t" 0))
+      Run.sop 0 (.setStep "body")
+      Run.handleException c.kind (some ["s"]) withSuite
+    let ts : Run.TS := (prog.run default).2
+    let skipped (testSuite : Path) : Bool :=
+      (skipReason false false ts.abortAll (ts.abortedSuites.contains (some testSuite)) false false true).isSome
+    let effect := match skipped ["s"], skipped ["s", "sub"], skipped ["o"] with
+      | false, false, false => "none"
+      | true, false, false => "abortSuite"
+      | true, true, true => "abortAll"
+      | _, _, _ => "other"
+    let errs := (ts.sess.fired.filter (fun e => match e with | .log _ _ _ .error _ _ => true | _ => false)).length
+    s!"{effect}+{errs}err"
+
+theorem handle_exception_table_agrees : ∀ r ∈ handleExcTable, evalHandle r.1 = r.2 := by decide +kernel
+
 end LccModel.Generated.C08
